@@ -345,6 +345,28 @@ impl Compound {
         }
     }
 
+    /// Raise the unit to the given integer power. Returns `None` if a power
+    /// overflows.
+    pub(crate) fn pow(&self, n: i32) -> Option<Self> {
+        let mut names = BTreeMap::new();
+
+        for (unit, state) in &self.names {
+            let power = state.power.checked_mul(n)?;
+
+            if power != 0 {
+                names.insert(
+                    *unit,
+                    State {
+                        power,
+                        prefix: state.prefix,
+                    },
+                );
+            }
+        }
+
+        Some(Self::new(names))
+    }
+
     /// Get all base units out of the current unit.
     fn base_units(&self) -> (Vec<(Unit, i32)>, Powers) {
         let mut powers = Powers::default();
